@@ -6,6 +6,8 @@ from .. import framework as fw
 from . import inst_common as ic
 
 GEN_SECTIONS = ["Regexes", "Tables", "Unicode"]
+LEAVES = {'LoopGroups': []}
+IMP = ['buildNoteEvents']  # functions dumped as terms of the imperative embedding, run against CPython on every run
 TRUSTED = [
     "Lean 4 kernel; axioms ⊆ {propext, Classical.choice, Quot.sound}",
     "hand model of the grouping loop and Note.from_parsed_datas; generated Note / NoteTrackIndex tables and kind order",
@@ -49,6 +51,19 @@ def slice(ctx: fw.Ctx) -> fw.Outcome:
         src = gen.rand_src(rng, p)
         cases.append((src, gen.render(src, rng, p)))
     cases += ic.far_cases(rng, ic.prof(garbage=0.0, exotic_pad=0.0, exotic_digits=0.0))  # ticks and lengths beyond 2^53, adjacent ticks
+    # several instruments and difficulties with their sections in any file order (also interleaved: A-easy, B-easy, A-expert, B-expert)
+    pm = ic.prof(phrases=0.3, max_tracks=6, shuffle_sections=1.0, max_groups=5)
+    for _ in range(ctx.n(40, 4000)):
+        src = gen.rand_src(rng, pm)
+        if len(src.tracks) >= 2 and rng.random() < 0.6:
+            a_, b_ = src.tracks[0], src.tracks[1]
+            for tr_, (i_, d_) in zip(src.tracks[:4], [(a_.inst, 0), (b_.inst if b_.inst != a_.inst else (a_.inst + 1) % 10, 0), (a_.inst, 3),
+                                                      (b_.inst if b_.inst != a_.inst else (a_.inst + 1) % 10, 3)]):
+                tr_.inst, tr_.diff = i_, d_
+            src.tracks = src.tracks[:4]
+            cases.append((src, gen.render(src, rng, ic.prof(phrases=0.3, max_tracks=6, shuffle_sections=0.0, max_groups=5))))  # written in exactly this interleaved order
+        else:
+            cases.append((src, gen.render(src, rng, pm)))
     ic.run(ctx, out, cases, project, lambda tl: [(t["tick"], t["lanes"]) for t in tl], "note ticks and lanes",
            lambda src: any(len(g.lanes) + g.tap + g.forced >= 2 for tr in src.tracks for g in tr.groups))
     ic.stable_under_reads(ctx, out, cases, "note events")
